@@ -728,6 +728,12 @@ def _defaults():
         want = [float(x) for x in _np.linspace(0, 2, 20)]
         if got is None or [round(float(x), 9) for x in got] != [round(x, 9) for x in want]:
             return cases, {"argv": "-m ets (no -r)", "thresholds": None if got is None else [float(x) for x in got], "want": want}
+        # ... also with a single input file
+        rec = run_driver(["A", "-m", "ets"])
+        cases += 1
+        got = rec.pl.get("thresholds") if rec.pl else None
+        if got is None or [round(float(x), 9) for x in got] != [round(x, 9) for x in want]:
+            return cases, {"argv": "A -m ets (no -r, one input)", "outcome": str(rec.outcome), "thresholds": None if got is None else [float(x) for x in got], "want": want}
         # probabilistic thresholds: those stored in every file
         rec = run_driver(["A", "B", "-m", "bs"])
         cases += 1
